@@ -1,23 +1,53 @@
 """C14 - merge and duplicate preserve content and independence"""
-from props import oracles
+from props import comps_merge, comps_tree, oracles
 
 PID = "C14"
-LEVEL = "exploration"
+LEVEL = "proof"
 
 
 def components():
-    return []
+    return [comps_merge.MergeModel(), comps_tree.TreeIO()]
 
 
 def oracles_():
     return [oracles.MergeDup()]
 
 
+TRUSTED = [
+    "ocaml/tree_io.ml (reads / prints lyx dumps and the schema line), tools/treeenc.py (yanggen module -> schema line with "
+    "sids in lys_getnext order), tools/yanggen.py (modules and instances), impl/lyx.c (dump, merge, inv commands)",
+]
+
+ASSUMPTIONS = [
+    "the theorems assume operands that are canonical (Tree.Canon) and have unique instance identities (MergeP.UniqIds); the "
+    "correspondence run checks canonb on every parsed operand it feeds (component treeio) and libyang's validation is what "
+    "establishes uniqueness; schemas satisfy Tree.schema_okb (checked by treeio on every generated schema)",
+    "the sibling anchor search of lyd_insert_node is modelled on canonical siblings only; one module; no opaque nodes, no "
+    "LYD_NEW / when flags, no hashes",
+]
+
 MANIFEST = {
-    "category": "exploration",
-    "text": "No Coq model of lyd_merge/lyd_dup yet: explored by an API oracle on generated tree pairs: source untouched, destructive = "
-            "non-destructive result, idempotence, source content present, merge into empty = copy, dup equal per option set and into "
-            "another context, editing/freeing either operand leaves the other intact (ASan build).",
-    "note": "Testing only (random generation from VERIF_SEED), run under ASan as well.",
-    "technique": "metamorphic API oracle under ASan (no proof yet)",
+    "category": "partial",
+    "text": "Coq (Properties_C14_merge.v, closed under the global context) about Merge.merge, a branch-by-branch transcription of "
+            "lyd_merge_siblings / lyd_merge_sibling_r (matching by instance identity, duplicate-instance cache, leaf overwrite with "
+            "default-flag handling and LYD_MERGE_DEFAULTS / WITH_FLAGS, the walk up of lyd_np_cont_dflt_del/_set, recursion without "
+            "keys, insertion at the canonical position) on the shared Tree.v model: the merged tree is canonical again "
+            "(C14_merge_canon) and keeps identities unique (C14_merge_uniq); every explicit source node addressed by its instance "
+            "path is in the result with the source's value (C14_merge_contains_source_partial); target nodes whose path the source "
+            "does not contain are unchanged (C14_merge_keeps_rest_partial); merging the same source again changes nothing "
+            "(C14_merge_idempotent_partial); merge into the empty tree yields the source (C14_merge_empty_partial). Tie: the "
+            "extracted model and lyd_merge_siblings run on the same dumped operands with all 8 option combinations (destructive "
+            "and non-destructive against the ONE model function, so both give the same result), the source dump before/after, a "
+            "second merge and the invariant checker; dumps must agree byte for byte incl. default flags and metadata "
+            "(component mergemodel); the Tree foundation itself is tied by component treeio (parse, canonb, shuffled re-insertion "
+            "with insert_node, print). The API oracle mergedup (also under ASan) checks the same laws plus duplicates: equal per "
+            "option set, into another context, and independent (editing / freeing either tree leaves the other's dump unchanged).",
+    "note": "PARTIAL. (1) Independence of a duplicate / of the merge source is a heap property (no shared mutable state): the value "
+            "model cannot express it, Merge.dup is the identity; only the sanitizer-backed oracle looks at it. (2) The four "
+            "_partial theorems do not speak about instances of duplicate-instance lists (key-less lists, config false leaf-lists): "
+            "they have no instance path and are matched by position through the lyd_dup_inst cache; the model implements that "
+            "(and T2 exercises it), the theorems exclude it. (3) lyd_dup_* options (parents, no-meta, to another context) are not "
+            "modelled beyond 'equal value'. (4) Not in Tree.v: LYD_NEW, opaque nodes, several modules, hashes / lyds trees (C04).",
+    "technique": "Coq proof about a transcribed functional model + differential correspondence on libyang dumps + metamorphic API "
+                 "oracle under ASan",
 }
